@@ -3,12 +3,12 @@ NEXT CNext
 CONSTANTS
   Mode = "pairs"
   Depth = 1
-  LitSet = "full"
+  LitSet = "fullplus"
   MaxPos = 4
   MaxKw = 2
   MaxArgs = 5
   FnFilter = "all"
-  Shapes = {"plain", "star"}
+  Shapes = {"plain", "star", "mixed", "mixedk"}
   MaxSess = 3
   FixProtoCache = TRUE
   Bug = "none"
